@@ -75,6 +75,11 @@ def iv_join(a, b):
     return Iv(lo, lc, hi, hc, a.scale or b.scale)
 
 
+def _same_data(v, D):
+    """v is the raw data slice D of the current dimension"""
+    return v == D
+
+
 def check(ctx):
     p = ctx.prog
     ctx.assume('canonical random numbers lie in the closed interval [0,1] (the defensive assumption '
@@ -293,6 +298,76 @@ def check(ctx):
         want_avg = ite(T.cmp('!=', t_, ZERO), imp, ZERO)
         check_equal(ctx, 'R4.average', w4, 'average importance = sum of the importances / bins', avg_u['body'], want_avg)
     ctx.guard('R3', where, r3)
+
+    def r4s():
+        """smoothing: by the inductive invariant previous = D[k-1], current = D[k], V[j] = D[j] for
+        j >= k (D = raw data of the dimension) every interior entry becomes the 3-point average of the
+        raw data and the two end entries the 2-point average; checked on the one-iteration transition
+        and the initial / final statements - the loop is not executed"""
+        from .. import algebra
+        i = outer[0].idx
+        sm = [l for l in s.loops if l.func is g and l not in outer and (l.lo, l.hi) == (ONE, sub(bins, ONE))]
+        if len(sm) != 1:
+            raise AnalysisBroken('smoothing loop (1 .. bins-2) of vegas_refine_pdf not recognised')
+        l3 = sm[0]
+        w3 = '%s:vegas_refine_pdf' % l3.node.where()
+        k = l3.idx
+        vec = [u for u in l3.updates.values() if isinstance(u['next'], tuple) and u['next'][0] == 'vupd'
+               and u['next'][1] == u['pre'] and u['next'][2] == k]
+        if len(vec) != 1:
+            raise AnalysisBroken('smoothed vector of the smoothing loop not recognised')
+        V = vec[0]
+        val = V['next'][3]
+        scal = [u for u in l3.updates.values() if u is not V]
+        B = [u for u in scal if u['next'] == sel(V['pre'], add(k, ONE))]
+        A = [u for u in scal if B and u['next'] == B[0]['pre']]
+        N = [u for u in scal if algebra.equal(u['next'], add(u['pre'], val))[0]]
+        if len(A) != 1 or len(B) != 1 or len(N) != 1:
+            ctx.violation('R4.smoothing', w3, 'the rolling window of the smoothing loop is not (previous := '
+                          'current; current := next raw entry; norm += smoothed entry)',
+                          {'updates': {u['label']: T.pretty(u['next'])[:160] for u in l3.updates.values()}})
+            return
+        A, B, N = A[0], B[0], N[0]
+        D = ('vslice', sym('data'), mul(i, bins), mul(add(i, ONE), bins))
+        d0, d1 = sel(D, ZERO), sel(D, ONE)
+        half = T.num('1/2')
+        ok_init = algebra.equal(A['init'], d0)[0] and algebra.equal(B['init'], d1)[0] and \
+            algebra.equal(N['init'], mul(half, add(d0, d1)))[0] and \
+            isinstance(V['init'], tuple) and V['init'][0] == 'vupd' and V['init'][2] == ZERO and \
+            _same_data(V['init'][1], D) and algebra.equal(V['init'][3], mul(half, add(d0, d1)))[0]
+        # step under the invariant
+        inv = {A['pre']: sel(D, sub(k, ONE)), B['pre']: sel(D, k), sel(V['pre'], add(k, ONE)): sel(D, add(k, ONE))}
+        want = div(add(add(sel(D, sub(k, ONE)), sel(D, k)), sel(D, add(k, ONE))), T.num(3))
+        ok_step = algebra.equal(T.subst(val, inv), want)[0]
+        if ok_init and ok_step:
+            ctx.holds('R4.smoothing', w3, 'interior entries become (D[k-1] + D[k] + D[k+1])/3 of the raw data of '
+                      'this dimension (inductive invariant of the rolling window verified on the transition), '
+                      'entry 0 becomes (D[0] + D[1])/2, norm accumulates the smoothed entries')
+        else:
+            ctx.violation('R4.smoothing', w3, 'smoothing is not the 3-point average of the raw data of this '
+                          'dimension' if not ok_step else 'the rolling window of the smoothing is not initialised '
+                          'with the first two raw entries of this dimension',
+                          {'written': T.pretty(T.subst(val, inv))[:300], 'want': T.pretty(want)[:200],
+                           'init': {x['label']: T.pretty(x['init'])[:120] for x in (A, B, N, V)}})
+        # last entry: (previous + current)/2 after the loop, added to norm
+        imp = [l for l in s.loops if l.func is g and l is not l3 and l not in outer and (l.lo, l.hi) == (ZERO, bins)
+               and any(u['kind'] == 'sum' for u in l.updates.values())]
+        if len(imp) == 1:
+            vin = None
+            for u in imp[0].updates.values():
+                if u['kind'] == 'map':
+                    vin = u['init']
+            hA, hB, hV = A['final'], B['final'], V['final']
+            want_last = T.vupd(hV, sub(T.size(hV), ONE), mul(half, add(hA, hB)))
+            if vin is not None and (vin == want_last or (isinstance(vin, tuple) and vin[0] == 'vupd' and vin[1] == hV
+                                                         and algebra.equal(vin[3], mul(half, add(hA, hB)))[0])):
+                ctx.holds('R4.smoothing_last', w3, 'the last entry becomes (D[bins-2] + D[bins-1])/2')
+            elif vin is not None and isinstance(vin, tuple) and vin[0] == 'havoc':
+                pass
+            elif vin is not None:
+                ctx.violation('R4.smoothing_last', w3, 'the last smoothed entry is not the average of the last '
+                              'two raw entries', {'value': T.pretty(vin)[:300]})
+    ctx.guard('R4.smoothing', where, r4s)
 
     from . import C01
     from .common import Proxy, share
